@@ -774,6 +774,11 @@ def run(ctx, res):
             lines.append("vi %d %d %d" % (seed, n, n))
             expect.append("%s %s" % (show_trace(o["trace"]), "ok" if not o["error"] else "err:" + o["error"]))
             meta.append(case)
+            # the VI branch as GENERATED from the source (no seed, no holder capacity in that picture)
+            if not o["error"]:
+                lines.append("vigen %d %d" % (n, n))
+                expect.append("0 %s" % show_list(vi_codes(o["trace"])))
+                meta.append(dict(case, kind="vi-generated"))
             # the VI stream differs from every chain stream of the same seed
             if o["draws"] is not None:
                 for idx in range(min(3, cmax)):
@@ -785,6 +790,10 @@ def run(ctx, res):
         lines.append("vi %d %d %d" % (seed, n, r))
         expect.append("%s %s" % (show_trace(o["trace"]), "ok" if not o["error"] else "err:" + o["error"]))
         meta.append({"kind": "vi-tie", "seed": seed, "n": n, "returned": r})
+        if not o["error"]:
+            lines.append("vigen %d %d" % (n, r))
+            expect.append("0 %s" % show_list(vi_codes(o["trace"])))
+            meta.append({"kind": "vi-generated", "seed": seed, "n": n, "returned": r})
         res.count("vi.miscounted_return")
     res.sample({"kind": "vi", "seed": 7, "n": 3, "impl_trace": run_vi(7, 3)["trace"]})
 
@@ -812,6 +821,21 @@ def run(ctx, res):
             if e != g_:
                 res.disagree("C17:%s" % m["kind"], {"line": l, "case": m}, e[:400], g_[:400])
         res.count("tie.lines", len(lines))
+
+
+def vi_codes(tr):
+    """the VI stub's trace in the translator's event codes: R -> 2, G.. -> 3, S<n> -> 4,n, A -> 1"""
+    out = []
+    for e in tr:
+        if e == "R":
+            out.append(2)
+        elif e == "A":
+            out.append(1)
+        elif str(e).startswith("G"):
+            out.append(3)
+        elif str(e).startswith("S"):
+            out += [4, int(str(e)[1:])]
+    return out
 
 
 def show_trace(tr):
